@@ -128,6 +128,20 @@ func c07(r *ev.Run) {
 		}
 		afterWarmups(r, "decode-after-other-operations", cs, decodeCase)
 	}
+	volume(r, "decode-volume", 1100, func(k int) c07Case {
+		t := ref.B32Encode([]byte(fmt.Sprintf("volume-%04d", k)))
+		switch k % 5 {
+		case 1:
+			t = strings.ToLower(t)
+		case 2:
+			t = " " + t + "\n"
+		case 3:
+			t = t[:len(t)-1] + "1"
+		case 4:
+			t = t + "A"
+		}
+		return c07Case{t}
+	}, decodeCase)
 	if ReplayOnly {
 		return
 	}
